@@ -164,6 +164,12 @@ func genC11(tier string, run int, r *simcore.Rand) *harness.Plan {
 		cfg.MetaSmall = []int{2, 3, 5, 10}[r.Intn(4)]
 		cfg.MetaFull = []int{3, 8, 20, 50}[r.Intn(4)]
 	}
+	// three runs in ten: the meta store sends fewer blobs per enumeration
+	// call than it is asked for (legal: "at most limit"); the start-up scan
+	// reads it through blobserver.EnumerateAll and must still see them all
+	if r.Bool(0.3) {
+		root.Kids[1].ShortPages = []int{1, 2, 7}[r.Intn(3)]
+	}
 	p := &harness.Plan{Mode: "encrypt", Config: harness.MustJSON(cfg), Bubble: true}
 	p.LockYield = []int{0, 0, 50}[r.Intn(3)]
 	p.Sticky = []int{0, 700}[r.Intn(2)]
